@@ -141,6 +141,12 @@ def gen_workload(rng, profile="c06"):
             s["toks"] = [list(x) for x in jobs[root]["toks"]]
             s["over"] = False
             s["reuse"] = True
+    # a callback of the job fails: the last processing of its watched outputs (helper thread, `doneh`), or a
+    # listener of the scheduler when told about this job (`listener`); neither changes what the job is
+    if profile == "c06":
+        for s in jobs:
+            if krng.random() < 0.08:
+                s["raises"] = krng.choice(["doneh", "listener"])
     # (a copy has the class of its original; a task used as a pre-task stays a plain VTask)
     aspre = {k for s in jobs for (k, how) in s["embed"] if how.startswith("pre_task")}
     for i, s in enumerate(jobs):
@@ -190,9 +196,20 @@ def oracle_rest(w, trace, report, pid="C06"):
         if not oversubscribed(w["tokens"], w["jobs"][j]["toks"]):
             report(f"{pid}:submission-refused-although-requests-fit",
                    f"submit() refused job {j} ({trace['refused'][k]}): its requests {w['jobs'][j]['toks']} fit the totals {w['tokens']}")
+    if trace.get("foreign"):
+        report(f"{pid}:dependency-check-outside-scheduler-loop",
+               f"dependencychanged of job(s) {trace['foreign']} ran in a foreign thread (capacity increase of a file token): "
+               f"_readyEvent.set() from there does not wake the loop")
     if trace.get("ended") != "maxsteps":
         return
     sn = last_snap(trace)
+    lis = [j for j, o in enumerate(sn["jobs"]) if o is not None and o["registered"] and o["result"] is None
+           and w["jobs"][j].get("raises") == "listener"]
+    if lis:
+        report(f"{pid}:livelock:listener-exception-restarts-job",
+               f"job {lis[0]}: a listener raises while the job is started; aio_start returns WAITING, the job is READY again "
+               f"and started again, for ever ({len(trace['steps'])} controller steps)")
+        return
     stuck = [j for j, o in enumerate(sn["jobs"]) if o is not None and o["registered"] and o["result"] is None]
     twice = [j for j in stuck if oversubscribed(w["tokens"], w["jobs"][j]["toks"]) and sn["jobs"][j]["launches"] == 0]
     starts = sum(1 for s in trace["steps"] if s["act"][0] == "deliver" and any(op == "lockin" for (_, op) in s["act"][1]))
@@ -321,7 +338,10 @@ def oracle_c06(w, trace, report):
             if asleep:
                 reused = any(o is not None and o["registered"] and o["result"] is None and w["jobs"][jj].get("reuse")
                              for jj, o in enumerate(sn["jobs"]))
-                report("C06:hang:reused-dependency-object-never-ready" if reused else "C06:hang:jobs-asleep:" + "+".join(asleep),
+                lost = any(jj < len(sn["jobs"]) and sn["jobs"][jj] is not None and sn["jobs"][jj]["result"] is None
+                           for (jj, _op) in (trace.get("lost") or []))
+                report("C06:hang:helper-thread-exception-never-delivered" if lost else
+                       "C06:hang:reused-dependency-object-never-ready" if reused else "C06:hang:jobs-asleep:" + "+".join(asleep),
                        f"after step {si}: nothing pending, nothing ready, jobs without final state: {asleep}")
             elif sn["wait"] == "blocked":
                 report("C06:hang:wait-blocked-all-final" + (":after-resubmit" if resub else ""),
@@ -544,7 +564,11 @@ def renderable(w, trace):
     for j, d in enumerate(trace["deps"]):
         if d is not None and any(x[0] == "other" or (x[0] == "job" and x[1] < 0) for x in d):
             return False
+    if trace.get("lost") or (trace.get("ended") == "maxsteps" and any(s.get("raises") for s in w["jobs"])):
+        return False                  # (reported by the oracle: the tree drops the exception / restarts for ever)
     for s in trace["steps"]:
+        if s["act"][0] == "grow":
+            return False              # (the model has no change of capacity)
         if s["snap"]["wait"] not in WOBS:
             return False
         if any(o is not None and o["result"] is not None and o["result"].startswith("EXC") for o in s["snap"]["jobs"]):
@@ -675,6 +699,8 @@ def run_sched_check(c, profile, oracles, n_quick, n_thorough, golden_name, rule,
         c.count(f"steps={min(len(t['steps']) // 10 * 10, 90)}+")
         for j, spec in enumerate(w["jobs"]):
             c.count("exit:" + ("0" if spec["code"] == 0 else "nonzero"))
+            if spec.get("raises") and t["deps"][j] is not None:
+                c.count("callback-raises:" + spec["raises"])
             if spec["marker"]:
                 c.count("marker")
             if falsy_task(t, j) and t["deps"][j] is not None:
